@@ -457,6 +457,11 @@ func runTable(e *hx.Env, tc tableCase) {
 		}
 		text, err := dumpText(sa, tc.Tables, tc.Batched)
 		if err != nil {
+			if strings.Contains(tc.Tables[0], "`") && strings.Contains(err.Error(), "reader") {
+				// NewSqlEngineReader builds "SELECT * FROM `%s`" without doubling backticks (confirmed on the CLI)
+				e.Rep.Violate("dump/backtick-table-name", "dolt dump cannot read a table whose name contains a backtick: "+err.Error(), tc)
+				return ""
+			}
 			return "dump failed: " + err.Error()
 		}
 		eb, err := sqleng.New(dirB, sqleng.Options{})
@@ -493,8 +498,16 @@ func runTable(e *hx.Env, tc tableCase) {
 			}
 			for i := range ra {
 				if ra[i] != rb[i] {
-					e.Rep.Violate("table/row", fmt.Sprintf("table %s: row differs after dump+import:\n%s\n---\n%s", t, qx.Short(ra[i], 700), qx.Short(rb[i], 700)), tc)
-					return ""
+					key := "table/row"
+					// YEAR 0 is written as the string '0', which re-imports as 2000 (confirmed on the CLI)
+					if strings.Contains(tc.Setup[0], " y year") && strings.HasSuffix(ra[i], "|0") && strings.HasSuffix(rb[i], "|2000") &&
+						strings.TrimSuffix(ra[i], "|0") == strings.TrimSuffix(rb[i], "|2000") {
+						key = "dump/year-zero-becomes-2000"
+					}
+					e.Rep.Violate(key, fmt.Sprintf("table %s: row differs after dump+import:\n%s\n---\n%s", t, qx.Short(ra[i], 700), qx.Short(rb[i], 700)), tc)
+					if key == "table/row" {
+						return ""
+					}
 				}
 			}
 			e.Rep.Hit(fmt.Sprintf("table:rows=%d", len(ra)))
